@@ -191,21 +191,6 @@ theorem wf_listKw (D : Defs) (k : String) (hk : k = "anyOf" ∨ k = "oneOf" ∨ 
 
 /-! ### `default` -/
 
-theorem c08_getKw_setKw_ne (k k' : String) (v : PyVal) (hne : (k' == k) = false) :
-    ∀ kvs : List (PyVal × PyVal), getKw k (setKw k' v kvs) = getKw k kvs
-  | [] => by simp [setKw, getKw, kw, keyIs, hne]
-  | (a, w) :: rest => by
-    simp only [setKw]
-    split
-    · rename_i h
-      -- the replaced entry's key is `k'`, not `k`
-      have ha : keyIs k a = false := by
-        cases a <;> simp [keyIs] at h ⊢
-        subst h
-        simpa using hne
-      simp [getKw, ha]
-    · simp only [getKw, c08_getKw_setKw_ne k k' v hne rest]
-
 /-- `wfNode` looks at the enclosing object only through `maximum` / `minimum` -/
 theorem c08_wfNode_ctx (D : Defs) (ctx ctx' : List (PyVal × PyVal)) (k v : PyVal) (one lst props : Unit → Bool)
     (hmax : getKw "maximum" ctx' = getKw "maximum" ctx) (hmin : getKw "minimum" ctx' = getKw "minimum" ctx) :
